@@ -74,7 +74,10 @@ def guard_variants(g, fb):
     c = g.cond()
     if c[0] != 'disc':
         return None
-    h, names = variant_names(g.fn, c[1], fb)
+    if len(c) > 3 and c[3]:
+        h, names = c[2], c[3]
+    else:
+        h, names = variant_names(g.fn, c[1], fb)
     if names is None:
         return (h, None, c[1])
     if g.vals is not None:
